@@ -33,6 +33,21 @@ CLAIMED = {
  "C20": dict(technique="exhaustive abstract interpretation (exact flag domain) of the sequence builder, move constructor and flow_graph constructor checks for every operator sequence up to length 3/4 against a declarative specification; documented flag table vs constexpr flags; declared vs actual effects via effect summaries",
              text="Decides acceptance/rejection, reported direction, single-column storage, snapshot keys and pass-through for every sequence of <= 3 (quick) / <= 4 (thorough) operators by interpreting the library's own validation code, plus agreement of declared flags with documentation and with the actual effects of each implementation.",
              ref="§5 C20"),
+ "C01": dict(technique="exhaustive abstract interpretation (order domain with exact successor semantics, finite neighbourhood scenarios) of router eligibility, MST tilt and priority-flood step; typestate rule on the recomputation of donors/orders",
+             text="Decides the resolver->router contract for every order-isomorphism class of neighbourhoods: any strictly lower unmasked neighbour is eligible in all three router bodies, base/masked nodes never drain, both resolvers leave every reached node strictly above its parent/receiver. Termination, acyclicity and reachability on arbitrary graphs are not decided.",
+             ref="§5 C01"),
+ "C02": dict(technique="abstract interpretation with a write log of the two elevation write sites over all order classes of the compared values; exact result on tree-shaped abstract neighbourhoods",
+             text="Decides the shape-level clauses only: every elevation write raises, masked/base/outlet nodes are never written, and on tree-shaped neighbourhoods the result is exactly the spill level plus one increment. The minimax characterisation on general graphs and the agreement of resolver variants are not decided.",
+             ref="§5 C02 / §6"),
+ "C04": dict(technique="exhaustive abstract interpretation (order/flag domain, whitelisted lemmas) of single_flow_router::apply -- sequential body and parallel callable -- over all neighbourhood scenarios, against a declarative steepest-descent oracle; sibling outcome agreement",
+             text="Decides the receiver-selection logic for every input up to order isomorphism of the neighbourhood (<= 2 quick / 3 thorough neighbours enumerated): own receiver iff no unmasked strictly lower neighbour, else an argmax of the computed slope with its distance, weight one; sequential and parallel bodies agree. Correctness of grid.neighbors() is C07; float vs real slope order is not decided.",
+             ref="§5 C04"),
+ "C05": dict(technique="exhaustive abstract interpretation of multi_flow_router::apply over neighbourhood scenarios; scaled-magnitude abstract domain deciding that the normalising sum cannot be 0/inf/NaN",
+             text="Decides receiver membership/order/distances/count, donor registration, that all weights are normalised by the same complete sum, and that this sum is finite and non-zero for every slope magnitude and exponent >= 0. Numerical proportionality to slope^p is not decided.",
+             ref="§5 C05"),
+ "C06": dict(technique="typestate (must-fact) analysis with callee transformers and effect summaries over every graph-updating operator",
+             text="Decides that after receivers change, donors, bottom-up and breadth-first orders are rebuilt in dependency order before every exit and before being read, and that multi-direction routers use the Kahn order, for all 7 grid instantiations. Correctness of the traversal algorithms on arbitrary graphs is not decided.",
+             ref="§5 C06"),
 }
 NA = {}
 DEFAULT_NA = "check not implemented yet (framework under construction)"
